@@ -81,6 +81,7 @@ def tlc(spec, cfg, workers=NCPU, metadir=None, extra="", env=None, timeout=3000,
     r["depth"] = int(m.group(1)) if m else 0
     r["violated"] = re.findall(r"Error: Invariant (\S+) is violated", out) + \
         re.findall(r"Error: Action property (\S+) is violated", out) + \
+        re.findall(r"Error: Temporal property (\S+) was violated", out) + \
         (["temporal"] if "Temporal properties were violated" in out else [])
     r["deadlock"] = "Deadlock reached" in out
     r["error"] = None
